@@ -1,10 +1,14 @@
 import Mieru.Driver.Core
+import Mieru.Crypto.Hex
 import Mieru.Model.KeyCache
+import Mieru.Model.Handshake
+import Mieru.Model.SpecCrypto
 namespace Mieru.Driver.C08
-open Mieru.Driver Mieru.Time Mieru.KeyCache
+open Mieru.Driver Mieru.Time Mieru.KeyCache Mieru.Crypto
 
 /-!
-ops (instants are integer nanoseconds since the Unix epoch, may be negative):
+ops (instants are integer nanoseconds since the Unix epoch, may be negative; an instant of a cache
+history is `<wallNs>` or `<wallNs>/<monotonicNs>` when the `time.Time` carries a monotonic reading):
   c08-slot <tNs>                          → ok <epoch s> <salt time −> <salt time 0> <salt time +>
   c08-minute <tNs>                        → ok <uint32 minute counter>
   c08-mid <a> <b> <c>                     → ok <mathext.Mid on a wide signed type>
@@ -12,26 +16,107 @@ ops (instants are integer nanoseconds since the Unix epoch, may be negative):
   c08-within-u32 <v> <target> <margin>    → ok true|false     (mathext.WithinRange[uint32]; args in [0,2^32))
   c08-ts-ok <current minute> <stamped>    → ok true|false     (metadata timestamp check, fixed code)
   c08-ts-ok-u32 <current minute> <stamped>→ ok true|false     (as the unfixed code computed it)
-  c08-kc-new <cacheValidIntervalNs>       → ok <handle>       (one password: empty cache, decryptor holding nothing)
-  c08-kc-lookup <h> <nowNs> <jitterMs>    → ok used=<e> cache=<e> held=<e>      getCachedCiphers; e = <epoch>/<createNs> | none
-  c08-kc-try <h> <nowNs> <jitterMs> <sender epoch>
-                                          → ok key=<0|1|2|none> used=<e> cache=<e> held=<e>   tryDecryptAt of a segment
-                                            sealed with the key of <sender epoch>
+  c08-ts-skew <trNs> <tsNs>               → ok true|false <minute tr> <minute ts>   stamped at ts, checked at tr
+  c08-kc-new <cacheValidIntervalNs>       → ok <handle>       (one password: empty cache, decryptors holding nothing)
+  c08-kc-lookup <h> <now> <jitterMs>      → ok used=<e> cache=<e>                getCachedCiphers; e = <epoch>/<createNs>[/<create monotonic ns>] | none
+  c08-kc-try <h> <now> <jitterMs> <sender epoch> [<decryptor>]
+                                          → ok key=<0|1|2|none> used=<e> cache=<e> held=<e>   tryDecryptAt (decryptor 0 if
+                                            not given) of a segment sealed with the key of <sender epoch>; held = what THAT
+                                            decryptor holds afterwards
   c08-kc-peek-lookup / c08-kc-peek-try    → same replies, state unchanged
+  c08-recv-first-tcp <hashedPassword> <trNs> <bytes>   → ok key=<0|1|2> stamp=<minute> consumed=<n> payload=<hex> | none <why>
+  c08-recv-first-udp <hashedPassword> <trNs> <datagram>→ ok key=<0|1|2> stamp=<minute> payload=<hex> | none <why>
+        `Mieru.Handshake.recvFirstTcp/recvFirstUdp` with the executable XChaCha20-Poly1305 and
+        keyOf = PBKDF2 of the slot's salt (`Mieru.Spec.keyForSlot`)
 -/
 
 def showE : Option (Entry Int) → String
-  | some e => s!"{e.epoch}/{e.createTime}"
+  | some e =>
+    match e.createTime.mono with
+    | some m => s!"{e.epoch}/{e.createTime.wall}/{m}"
+    | none => s!"{e.epoch}/{e.createTime.wall}"
   | none => "none"
 
-def showState (used : Entry Int) (s : State Int) : String :=
-  s!"used={showE (some used)} cache={showE s.cache} held={showE s.held}"
-
 def ints (l : List String) : Option (List Int) := l.mapM (·.toInt?)
+
+def parseInstant (s : String) : Option Instant :=
+  match s.splitOn "/" with
+  | [w] => w.toInt?.map fun w => ⟨w, none⟩
+  | [w, m] =>
+    match w.toInt?, m.toInt? with
+    | some w, some m => some ⟨w, some m⟩
+    | _, _ => none
+  | _ => none
+
+def hexL (s : String) : Option Bytes := if s == "-" then some [] else (Hex.decode s).map (·.toList)
+def hexOf (b : Bytes) : String := if b.isEmpty then "-" else Hex.encode (Spec.toBA b)
+
+def realKeyOf (hp : ByteArray) (e : Int) : Bytes := (Spec.keyForSlot hp e).toList
+
+def parseWhy : Spec.Parse → String
+  | .need => "need"
+  | .bad e => e.name
+  | .ok .. => "stamp"
 
 def handler : IO Handler := do
   let st ← IO.mkRef (#[] : Array (Int × State Int))
   pure fun op args => do
+    match op, args with
+    | "c08-kc-lookup", [h, now, j] | "c08-kc-peek-lookup", [h, now, j] =>
+      match h.toNat?, parseInstant now, j.toInt? with
+      | some h, some now, some j =>
+        let a ← st.get
+        match a[h]? with
+        | some (valid, s) =>
+          let r := step valid id s (.lookup now j)
+          if op == "c08-kc-lookup" then st.set (a.set! h (valid, r.2))
+          return some s!"ok used={showE (some r.1)} cache={showE r.2.cache}"
+        | none => return some "bad-op"
+      | _, _, _ => return some "bad-op"
+    | "c08-kc-try", h :: now :: j :: se :: rest | "c08-kc-peek-try", h :: now :: j :: se :: rest =>
+      let dec : Option Nat := match rest with
+        | [] => some 0
+        | [d] => d.toNat?
+        | _ => none
+      match h.toNat?, parseInstant now, j.toInt?, se.toInt?, dec with
+      | some h, some now, some j, some se, some dec =>
+        let a ← st.get
+        match a[h]? with
+        | some (valid, s) =>
+          let r := step valid id s (.tryDecrypt dec now j)
+          if op == "c08-kc-try" then st.set (a.set! h (valid, r.2))
+          let key := match (slotKeys r.1.keys).findIdx? (· == se) with
+            | some i => toString i
+            | none => "none"
+          return some s!"ok key={key} used={showE (some r.1)} cache={showE r.2.cache} held={showE (r.2.held dec)}"
+        | none => return some "bad-op"
+      | _, _, _, _, _ => return some "bad-op"
+    | "c08-recv-first-tcp", [hp, tr, b] =>
+      match Hex.decode hp, tr.toInt?, hexL b with
+      | some hp, some tr, some b =>
+        match Handshake.recvFirstTcp Spec.realAead (realKeyOf hp) tr b with
+        | some a =>
+          let idx := Spec.Srv.keyIndex a.key (Handshake.candKeys (realKeyOf hp) tr)
+          return some s!"ok key={idx} stamp={a.md.timestamp} consumed={a.consumed} payload={hexOf a.payload}"
+        | none =>
+          let why := parseWhy (Spec.parseOne Spec.realAead { Spec.Rx.new (Handshake.candKeys (realKeyOf hp) tr) with buf := b })
+          return some s!"none {why}"
+      | _, _, _ => return some "bad-op"
+    | "c08-recv-first-udp", [hp, tr, d] =>
+      match Hex.decode hp, tr.toInt?, hexL d with
+      | some hp, some tr, some d =>
+        match Handshake.recvFirstUdp Spec.realAead (realKeyOf hp) tr d with
+        | some (k, md, p) =>
+          let idx := Spec.Srv.keyIndex k (Handshake.candKeys (realKeyOf hp) tr)
+          return some s!"ok key={idx} stamp={md.timestamp} payload={hexOf p}"
+        | none =>
+          let why := match Spec.Srv.udpOpenCands Spec.realAead d (Handshake.candKeys (realKeyOf hp) tr) with
+            | none => "auth"
+            | some (_, .error e) => e.name
+            | some (_, .ok _) => "stamp"
+          return some s!"none {why}"
+      | _, _, _ => return some "bad-op"
+    | _, _ =>
     match op, ints args with
     | "c08-slot", some [t] =>
       match saltTimes t with
@@ -47,31 +132,12 @@ def handler : IO Handler := do
     | "c08-ts-ok-u32", some [n, o] =>
       if n < 0 ∨ o < 0 ∨ n ≥ u32 ∨ o ≥ u32 then return some "bad-op"
       else return some s!"ok {tsAcceptU32 n o}"
+    | "c08-ts-skew", some [tr, ts] =>
+      return some s!"ok {tsAccept (minuteU32 tr) (minuteU32 ts)} {minuteU32 tr} {minuteU32 ts}"
     | "c08-kc-new", some [valid] =>
       let a ← st.get
       st.set (a.push (valid, State.empty))
       return some s!"ok {a.size}"
-    | "c08-kc-lookup", some [h, now, j] | "c08-kc-peek-lookup", some [h, now, j] =>
-      let a ← st.get
-      match a[h.toNat]? with
-      | some (valid, s) =>
-        if h < 0 then return some "bad-op" else
-        let r := step valid id s (.lookup now j)
-        if op == "c08-kc-lookup" then st.set (a.set! h.toNat (valid, r.2))
-        return some s!"ok {showState r.1 r.2}"
-      | none => return some "bad-op"
-    | "c08-kc-try", some [h, now, j, se] | "c08-kc-peek-try", some [h, now, j, se] =>
-      let a ← st.get
-      match a[h.toNat]? with
-      | some (valid, s) =>
-        if h < 0 then return some "bad-op" else
-        let r := step valid id s (.tryDecrypt now j)
-        if op == "c08-kc-try" then st.set (a.set! h.toNat (valid, r.2))
-        let key := match (slotKeys r.1.keys).findIdx? (· == se) with
-          | some i => toString i
-          | none => "none"
-        return some s!"ok key={key} {showState r.1 r.2}"
-      | none => return some "bad-op"
     | _, _ => return none
 
 end Mieru.Driver.C08
